@@ -93,6 +93,21 @@ def check_header(c):
     cd_ = {"crc": int(dconf.crc_flag), "large": int(dconf.file_flag), "mode": int(dconf.trans_mode), "dir": int(dconf.direction), "segctrl": int(dconf.seg_ctrl), "idw": 1, "seqw": 1,
            "src": 0, "dst": c["dst"] & 0xFF, "seq": c["seq"] & 0xFF}
     eq(devs, "default_conf.ids_set_in_place.pack", bytes(hd.pack()), R.header(cd_, c["pdu_type"], cd_["dir"], c["seg_meta"], c["dlen"]))
+    # ids given through the octet route of the fields (value assigned from a receive buffer that continues: the field takes its width)
+    bconf = cf.PduConfig(_G.from_int(c["idw"], 0), _G.from_int(c["idw"], 0), _G.from_int(c["seqw"], 0), d.TransmissionMode(c["mode"]), d.LargeFileFlag(c["large"]),
+                         d.CrcFlag(c["crc"]), d.Direction(c["dir"]), d.SegmentationControl(c["segctrl"]))
+    bconf.source_entity_id.value = c["src"].to_bytes(c["idw"], "big") + b"\xde\xad"
+    bconf.dest_entity_id.value = bytearray(c["dst"].to_bytes(c["idw"], "big") + b"\xbe")
+    bconf.transaction_seq_num.value = c["seq"].to_bytes(c["seqw"], "big") + b"\xef\x00\x01"
+    hb = H.PduHeader(d.PduType(c["pdu_type"]), d.SegmentMetadataFlag(c["seg_meta"]), c["dlen"], bconf)
+    eq(devs, "ids_assigned_from_longer_octet_strings.pack", bytes(hb.pack()), want)
+    eq(devs, "ids_assigned_from_longer_octet_strings.header_len", hb.header_len, hl)
+    # a decoded header's id / sequence-number objects are changed in place by their owner; decoding the same octets again gives the packed values again
+    u3 = H.PduHeader.unpack(want)
+    u3.pdu_conf.source_entity_id.value = (c["src"] + 1) % (1 << (8 * c["idw"]))
+    u3.pdu_conf.transaction_seq_num.value = (c["seq"] + 1) % (1 << (8 * c["seqw"]))
+    u3.pdu_conf.dest_entity_id.value = (c["dst"] ^ 1)
+    eq(devs, "hist.decoded_again_after_earlier_ids_were_changed_in_place", obs_header(H.PduHeader.unpack(want)), want_obs(c))
     # every strict prefix is refused
     for n in range(hl):
         expect_raise(devs, "prefix", H.PduHeader.unpack, want[:n], accept=(BytesTooShortError,))
